@@ -82,7 +82,7 @@ var Catalogue = []ReSpec{
 
 // Idents are static literals; they include every regex-active identifier
 // character (. $ ( ) * +) and an escape-looking literal.
-var Idents = []string{"a", "b", "c", "ab", "a.b", "v1", "a+b", "(x)", "$y", "%41", "~t", "1", "x-y", "b*", "a$"}
+var Idents = []string{"a", "b", "c", "ab", "a.b", "v1", "a+b", "(x)", "$y", "%41", "~t", "1", "x-y", "b*", "a$", "**", "*"}
 
 // Binds is deliberately tiny so that duplicate-bind and stale-parameter
 // situations are common. `route` and `withOptional` are reserved.
@@ -123,6 +123,8 @@ func bindName(r *rand.Rand) string {
 		return pick(r, []string{"capture", "withOptional", "Route"})
 	case 2:
 		return pick(r, []string{"user-id", "v.1", "n~m", "k@x", "a+b", "(z)", "$v", "x'y"}) // every identifier character may occur in a bind name
+	case 3:
+		return pick(r, []string{"**p", "*x", "x**", "**", "*", "p*q"}) // ... also the asterisk: a name is a name, "**" is a value
 	}
 	return pick(r, Binds)
 }
